@@ -85,9 +85,15 @@ def reachK (n : Nat) (A : Nat → Nat → Rat) (u : Nat) : Nat → List Bool
 def connectedB (n : Nat) (A : Nat → Nat → Rat) (u v : Nat) : Bool :=
   decide (u < n) && (reachK n A u n).getD v false
 
-/-- no cluster contains nodes of two different connected components -/
+/-- the set `r` of nodes is closed under links: the certificate that `reachK … n` is a whole component -/
+def closedUnder (n : Nat) (A : Nat → Nat → Rat) (r : List Bool) : Bool :=
+  (List.range n).all fun v => (List.range n).all fun w => !(r.getD v false && linked A v w) || r.getD w false
+
+/-- no cluster contains nodes of two different connected components
+    (first conjunct: the reach sets are closed, so that the test is exact — `Lemmas/ModularityConn.lean`) -/
 def clustersWithinComponents (n : Nat) (A : Nat → Nat → Rat) (c : Nat → Nat) : Bool :=
   let reach := tab n fun u => reachK n A u n
+  ((List.range n).all fun u => closedUnder n A (reach.getD u [])) &&
   (List.range n).all fun u => (List.range n).all fun v => c u != c v || (reach.getD u []).getD v false
 
 end SkNet.Modularity
